@@ -1,12 +1,13 @@
 SPECIFICATION MCSpec
-CONSTANT Shapes = {1, 2, 3, 4, 5, 6, 7, 8, 9, 10, 11}
-CONSTANT MaxEntries = 2
-CONSTANT Wide = {}
-CONSTANT MaxLL = 2
-CONSTANT StateShapes = {4}
-CONSTANT Odd = TRUE
-CONSTANT LRun = FALSE
-CONSTANT CacheAll = FALSE
+CONSTANTS
+  Shapes = {1, 2, 3, 4, 5, 6, 7, 8, 9, 10, 11, 12, 13}
+  MaxEntries = 3
+  Wide = {}
+  MaxLL = 2
+  StateShapes = {4, 13}
+  Odd = TRUE
+  LRun = FALSE
+  CacheAll = FALSE
 INVARIANT AdapterLaws
 INVARIANT AtDone
 INVARIANT CacheSound
